@@ -418,22 +418,25 @@ def resolveType (cfg : Cfg) (f : File) (tbl : Table) (incs : List IncV) (tgt : O
       | none => .error .undefinedType
       | some (_, c) => if c = .typedef then .ok (true, [⟨tgt, none⟩]) else .ok (false, [])
 
-/-- one pass of the `for _, t := range tds` loop of ResolveTypedefs; `cats[k]` = "the top-level
-type of local typedef #k still has Category_Typedef".  Types living in includes are resolved. -/
+/-- `td.Type.Category == Category_Typedef` for the typedef a pair names.  `cats[k]` = "the top-level
+type of local typedef #k still has Category_Typedef"; types living in includes are resolved. -/
+def srcIsTypedef (cats : List Bool) (it : Pend) : Bool :=
+  match it.src with
+  | some j => cats.getD j false
+  | none => false
+
+/-- `t.Type.Category = td.Type.Category` (a resolved category) -/
+def clearTarget (cats : List Bool) (it : Pend) : List Bool :=
+  match it.tgt with
+  | some k => cats.set k false
+  | none => cats
+
+/-- one pass of the `for _, t := range tds` loop of ResolveTypedefs: new categories and `tmp` -/
 def tdRound (cats : List Bool) : List Pend → List Bool × List Pend
   | [] => (cats, [])
   | it :: r =>
-    let srcTd := match it.src with
-      | some j => cats.getD j false
-      | none => false
-    if srcTd then
-      let (c, t) := tdRound cats r
-      (c, it :: t)
-    else
-      let cats' := match it.tgt with
-        | some k => cats.set k false
-        | none => cats
-      tdRound cats' r
+    if srcIsTypedef cats it then ((tdRound cats r).1, it :: (tdRound cats r).2)
+    else tdRound (clearTarget cats it) r
 
 /-- ResolveTypedefs: `some true` = nil, `some false` = "typedefs can not be resolved", `none` = fuel -/
 def resolveTypedefs : Nat → List Bool → List Pend → Option Bool
@@ -515,15 +518,20 @@ def countSplit (cfg : Cfg) (p : Program) (tables : List (Option Table)) (fuel : 
 inductive IdRes | ok | undefined | ambiguous | crash
   deriving DecidableEq, Repr
 
+def addCounts : Option Nat → Option Nat → Option Nat
+  | some n, some m => some (n + m)
+  | _, _ => none
+
+/-- `len(ref)` after the loop over SplitValue(id); `none` = getEnum overflowed the stack -/
+def countIdent (cfg : Cfg) (p : Program) (tables : List (Option Table)) (fuel : Nat) (i : Nat) (f : File)
+    (id : Name) : Option Nat :=
+  (splitValue id).foldl (fun acc ss => addCounts acc (countSplit cfg p tables fuel i f ss)) (some 0)
+
 /-- ResolveConstValue on one identifier -/
 def resolveIdent (cfg : Cfg) (p : Program) (tables : List (Option Table)) (fuel : Nat) (i : Nat) (f : File)
     (id : Name) : IdRes :=
   if isBoolIdent id then .ok else
-  let total := (splitValue id).foldl (fun acc ss =>
-    match acc, countSplit cfg p tables fuel i f ss with
-    | some n, some m => some (n + m)
-    | _, _ => none) (some 0)
-  match total with
+  match countIdent cfg p tables fuel i f id with
   | none => .crash
   | some 0 => .undefined
   | some 1 => .ok
@@ -587,6 +595,13 @@ def doWork (cfg : Cfg) (p : Program) (tables : List (Option Table)) (fuel : Nat)
     if resolveBase tbl incs s then doWork cfg p tables fuel i f tbl incs r acc
     else (.err .baseService, acc)
 
+/-- `td.Type.Category == Category_Typedef` for every local typedef after the ResolveType pass -/
+def initCats (cfg : Cfg) (f : File) (tbl : Table) (incs : List IncV) : List Bool :=
+  f.typedefs.map fun td =>
+    match resolveType cfg f tbl incs none td.ty with
+    | .ok (b, _) => b
+    | .error _ => false
+
 /-- fuel for getEnum: every step moves to another typedef; an acyclic chain is no longer than this -/
 def enumFuel (p : Program) : Nat := (p.files.map fun f => f.typedefs.length).sum + 2
 
@@ -600,7 +615,7 @@ def resolveFile (cfg : Cfg) (p : Program) (tables : List (Option Table)) (i : Na
     | some tbl =>
       match doWork cfg p tables (enumFuel p) i f tbl (incViews tables f) (fileWork f) [] with
       | (.ok, tds) =>
-        match resolveTypedefs (tds.length + 1) (f.typedefs.map fun _ => true) tds with
+        match resolveTypedefs (tds.length + 1) (initCats cfg f tbl (incViews tables f)) tds with
         | some true => .ok
         | some false => .err .typedefs
         | none => .crash
